@@ -37,6 +37,7 @@ module Bp = struct
     | call :: fs ->
       if List.mem "skip" fs then "skip"
       else if List.mem "basepanic" fs then "basepanic"
+      else if List.mem "ext" fs then "ext"
       else
         match split_ws call with
         | [] -> "BADOP"
